@@ -122,11 +122,12 @@ class RSocketBase(RSocket, RSocketInternal):
         self._receiver_task = self._start_task_if_not_closing(self._receiver)
         self._sender_task = self._start_task_if_not_closing(self._sender)
 
-    async def connect(self):
+    def _send_setup_frame(self):
         self.send_priority_frame(self._create_setup_frame(self._data_encoding,
                                                           self._metadata_encoding,
                                                           self._setup_payload))
 
+    async def connect(self):
         if self._honor_lease:
             self._subscribe_to_lease_publisher()
 
